@@ -432,6 +432,116 @@ func rulesC15(p *Prog, r *Report) {
 		}
 	}
 
+	// R15.6 ------------------------------------------------------------------------
+	// Deeper in a unit: a function that has already written state and then swallows the
+	// failure of a later step returns success, so the unit commits the writes made so far
+	// although the step it was part of did not complete.
+	r.Rule("R15.6", "inside units: a function that has already moved coins does not report success after a later step failed", 10)
+	{
+		var roots []*ssa.Function
+		for _, u := range units {
+			if u.Closure != nil {
+				roots = append(roots, u.Closure)
+			}
+		}
+		for _, h := range hooks {
+			roots = append(roots, h.Fn)
+		}
+		isRoot := map[*ssa.Function]bool{}
+		for _, f := range roots {
+			isRoot[f] = true
+		}
+		inUnits := p.Reachable(roots, func(f *ssa.Function) bool { return f == af || p.isAuxFn(f) })
+		var fs []*ssa.Function
+		for f := range inUnits {
+			if errResultIndex(f) >= 0 {
+				fs = append(fs, f)
+			}
+		}
+		sort.Slice(fs, func(i, j int) bool { return fname(fs[i]) < fname(fs[j]) })
+		for _, f := range fs {
+			back := backEdges(f)
+			if isRoot[f] {
+				continue // the unit's own top level: skipping a sub-step that failed cleanly is its design (R15.5 covers sub-steps failing after their own writes)
+			}
+			var writes []ssa.CallInstruction
+			for _, c := range calls(f) {
+				if _, isDefer := c.(*ssa.Defer); isDefer {
+					continue
+				}
+				if bank.Call(c) {
+					writes = append(writes, c) // coins already moved by this function
+				}
+			}
+			if len(writes) == 0 {
+				continue
+			}
+			n := map[string]int{}
+			for _, c := range calls(f) {
+				call, ok := c.(*ssa.Call)
+				if !ok || p.callIsFn(c, af) {
+					continue
+				}
+				sig := call.Call.Signature()
+				if k := sig.Results().Len(); k == 0 || !isErrorType(sig.Results().At(k-1).Type()) {
+					continue
+				}
+				canFail := false
+				ts := p.Callees(c)
+				for _, t := range ts {
+					if isComdexFn(t) && !neverFails(t) {
+						canFail = true // a comdex step: reads the store, prices, balances
+					}
+				}
+				if bankEffect(c) != nil {
+					canFail = true
+				}
+				if !canFail {
+					continue
+				}
+				// an own write strictly before the step on an acyclic path
+				var prior ssa.CallInstruction
+				for _, w := range writes {
+					if w == c {
+						continue
+					}
+					if w.Block() == c.Block() {
+						for _, in := range c.Block().Instrs {
+							if in == ssa.Instruction(w) {
+								prior = w
+								break
+							}
+							if in == ssa.Instruction(c) {
+								break
+							}
+						}
+					} else if seen, _ := reach(f, w.Block(), back, nil); seen[c.Block()] {
+						prior = w
+					}
+					if prior != nil {
+						break
+					}
+				}
+				if prior == nil {
+					continue
+				}
+				r.Instance("R15.6")
+				r.FuncsSeen[fname(f)] = true
+				base := fmt.Sprintf("%s: %s after own write", fname(f), callName(c))
+				n[base]++
+				construct := base
+				if n[base] > 1 {
+					construct = fmt.Sprintf("%s #%d", base, n[base])
+				}
+				if swallowed, pos := failureReturnsSuccess(p, f, call); swallowed {
+					r.Fail("R15.6", construct, fmt.Sprintf("the function has already moved coins (%s at %s) when this step can fail, and the failure branch returns success (nil error): the enclosing unit commits the transfer of a step that did not complete", callName(prior), p.instrPos(prior)), pos, nil)
+				} else {
+					r.OK("R15.6", construct, "a failure after the function's own writes is reported to the unit", p.instrPos(c))
+				}
+			}
+		}
+	}
+
 	// R15.4 ------------------------------------------------------------------------
 	r.Rule("R15.4", "unwrapped hook code: slices bounded by the sliced list's own length; no explicit panic; no unchecked integer division", 4)
 	var inventory []string
@@ -968,4 +1078,57 @@ func phiHasNilEdge(ph *ssa.Phi) bool {
 		}
 	}
 	return false
+}
+
+// failureReturnsSuccess: the branch taken when the error of call is non-nil leads, without
+// any further branching, to a return with a nil error ("if err != nil { return x, nil }").
+// `continue`, logging-and-going-on and ignored errors are not this shape.
+func failureReturnsSuccess(p *Prog, f *ssa.Function, call *ssa.Call) (bool, string) {
+	sig := call.Call.Signature()
+	n := sig.Results().Len()
+	if n == 0 || !isErrorType(sig.Results().At(n-1).Type()) || errResultIndex(f) < 0 {
+		return false, ""
+	}
+	var ev ssa.Value
+	if n == 1 {
+		ev = call
+	} else if call.Referrers() != nil {
+		for _, ref := range *call.Referrers() {
+			if ex, ok := ref.(*ssa.Extract); ok && ex.Index == n-1 {
+				ev = ex
+			}
+		}
+	}
+	if ev == nil {
+		return false, ""
+	}
+	for _, b := range f.Blocks {
+		ifi, ok := b.Instrs[len(b.Instrs)-1].(*ssa.If)
+		if !ok {
+			continue
+		}
+		x, neq, ok := nilCheck(ifi.Cond)
+		if !ok || x != ev {
+			continue
+		}
+		cur := b.Succs[0]
+		if !neq {
+			cur = b.Succs[1]
+		}
+		for i := 0; i < 4 && cur != nil; i++ {
+			last := cur.Instrs[len(cur.Instrs)-1]
+			if rt, isRet := last.(*ssa.Return); isRet {
+				if exitKind(rt) == ExitSuccess {
+					return true, p.instrPos(ifi)
+				}
+				break
+			}
+			if _, isJump := last.(*ssa.Jump); isJump && len(cur.Succs) == 1 && !cur.Succs[0].Dominates(cur) {
+				cur = cur.Succs[0]
+				continue
+			}
+			break
+		}
+	}
+	return false, ""
 }
